@@ -39,21 +39,36 @@ class Driver:
         self.built = True
 
     def run_many(self, scripts, timeout=600):
+        """one native process per chunk of scripts, chunks in parallel; a chunk that does not finish is re-run script by
+        script, and a script that still does not finish is answered [{'timeout': True}] (callers skip it)"""
         self.build()
         if not scripts:
             return []
+        if len(scripts) == 1:
+            return [self._run_chunk(scripts, timeout, single=True)[0]]
+        import concurrent.futures
+        n = 20
+        chunks = [scripts[i:i + n] for i in range(0, len(scripts), n)]
+        workers = min(8, max(1, (os.cpu_count() or 4) // 2))
+        with concurrent.futures.ThreadPoolExecutor(workers) as pool:
+            outs = list(pool.map(lambda ch: self._run_chunk(ch, timeout), chunks))
+        return [o for ch in outs for o in ch]
+
+    def _run_chunk(self, scripts, timeout, single=False):
         inp = '\n'.join(json.dumps(s) for s in scripts) + '\n'
         try:
             p = subprocess.run([self.bin], input=inp, stdout=subprocess.PIPE, stderr=subprocess.PIPE, text=True, timeout=timeout)
         except subprocess.TimeoutExpired:
-            if len(scripts) == 1:
-                return [[{'crash': 'native run did not terminate within %ds' % timeout}]]
-            raise
+            if single or len(scripts) == 1:
+                return [[{'crash': 'native run did not terminate within %ds' % timeout}]] if single else [[{'timeout': True}]]
+            return [self._run_chunk([s_], 120)[0] for s_ in scripts]
         if p.returncode != 0 and len(scripts) == 1:
             return [[{'crash': 'native run died with status %d: %s' % (p.returncode, p.stderr[-200:])}]]
         self.calls += len(scripts)
         outs = [json.loads(l) for l in p.stdout.split('\n') if l.strip()]
         if len(outs) != len(scripts):
+            if len(scripts) > 1:
+                return [self._run_chunk([s_], 120)[0] for s_ in scripts]
             raise RuntimeError('driver produced %d results for %d scripts: %s' % (len(outs), len(scripts), p.stderr[-500:]))
         return outs
 
@@ -152,6 +167,9 @@ def run_check(pid, tier, seed, harness_specs, level_note, args):
         if tvs:
             outs = driver.run_many([t['script'] for t in tvs])
             for t, o in zip(tvs, outs):
+                if o and isinstance(o[0], dict) and o[0].get('timeout'):
+                    total['tv_skipped'] = total.get('tv_skipped', 0) + 1        # the native run of this sample did not finish in time: not validated, not counted
+                    continue
                 total['tv'] += 1
                 exp = t['expect']
                 if t.get('post') is not None:
